@@ -1,7 +1,7 @@
 (* C09 — Completed replies are delivered promptly, not withheld by later requests.
    Only theorem statements; proofs in Proofs/ProxyProofs.v. *)
 From RcProxy Require Import Base.Bytes Base.Dec Gen.Generated Spec.RespGrammar
-  Model.RespBuf Model.ClientCodec Model.ServerCodec Model.Route Model.Proxy Proofs.ProxyProofs Props.C01.
+  Model.RespBuf Model.ClientCodec Model.ServerCodec Model.Route Model.Proxy Proofs.ProxyProofs Proofs.ProxyDrainProofs Props.C01.
 Open Scope N_scope.
 
 (* For EVERY history of events and every open client connection: at the end of each event the head
@@ -21,6 +21,22 @@ Theorem C09_flush_restores : forall st c cl, lookup c (clients st) = Some cl -> 
 Proof. exact flush_done_inv. Qed.
 Print Assumptions C09_flush_restores.
 
+(* the backend side of promptness: when the event that delivers bytes to a backend connection ends,
+   nothing decodable is left in that connection's buffer - every reply that has arrived completely
+   has been taken (and, by the theorem above, delivered if it completed the head request); only an
+   incomplete reply, or an incomplete handshake answer, waits for more bytes *)
+Theorem C09_backend_replies_consumed : forall st s b st', step st (EServerData s b) = ROk st' ->
+  forall sv, lookup s (servers st') = Some sv -> ps_open sv = true ->
+    sdecode (ps_left sv) = SWait \/ (ps_initializing sv = true /\ init_decode (ps_step sv) (ps_left sv) = IWait).
+Proof. exact server_data_drains. Qed.
+Print Assumptions C09_backend_replies_consumed.
+
+(* the decoder consumes at least one byte per reply, so the read loop's fuel (one more than the bytes
+   at hand) always suffices *)
+Theorem C09_reply_decoder_consumes : forall b ty n, sdecode b = SReply ty n -> (1 <= n <= length b)%nat.
+Proof. exact sdecode_consumes. Qed.
+Print Assumptions C09_reply_decoder_consumes.
+
 (* witness of the repaired defect: two requests on two nodes; the first node answers while the second
    stalls: the first reply is delivered at once (it used to wait for the second) *)
 Definition w2_pools := [ {| pp_addr := bs "n1:1"; pp_slave := false; pp_conns := []; pp_closed := false; pp_dialable := true |};
@@ -33,3 +49,13 @@ Example C09_witness :
            [EConnect 0 true; EClientData 0 (enc_request [bs "get"; bs "a"] ++ enc_request [bs "get"; bs "b"]) []; ETasks [];
             EServerData 0 (enc_bulk (bs "A"))]) 0 = enc_bulk (bs "A").
 Proof. vm_compute. reflexivity. Qed.
+
+(* a redirect and the reply of the next request arrive in ONE read: the reply behind the redirect is
+   consumed and delivered in the same event (b before a, whose fragment travels to the other node) *)
+Example C09_reply_behind_a_redirect :
+  let evs := [EConnect 0 true; EConnect 1 true;
+              EClientData 0 (enc_request [bs "get"; bs "a"]) []; EClientData 1 (enc_request [bs "get"; bs "{a}x"]) []; ETasks [];
+              EServerData 0 (bs "-MOVED 15495 n1:1" ++ crlf ++ enc_bulk (bs "X"))] in
+  w_got (run (init_state w_cfg w2_pools w2_slots) evs) 1 = enc_bulk (bs "X") /\
+  w_got (run (init_state w_cfg w2_pools w2_slots) evs) 0 = [].
+Proof. cbv zeta. split; vm_compute; reflexivity. Qed.
